@@ -21,6 +21,7 @@ type respScript struct {
 	// fault before answering
 	Fault string // "", "close-before-response", "stall", "half-response"
 	Early bool   // respond right after the header section, without reading the body, then close
+	NoCL  bool   // answer 200 without Content-Length (close-delimited), then close
 	Seq   *faultSeq // when set: the k-th arrival of this target (at any backend) gets faults[k]
 }
 
@@ -190,6 +191,14 @@ func (w *world) handler(name string) func(bc *sys.BackendConn) {
 				continue
 			}
 			body := "ok " + name
+			if sc != nil && sc.NoCL {
+				// close-delimited answer without Content-Length
+				fmt.Fprintf(bc.Conn, "HTTP/1.1 200 OK\r\nX-Backend: %s\r\nX-Echo-Target: %s\r\n\r\n", name, m.Target)
+				if m.Method != "HEAD" {
+					bc.Conn.Write([]byte(body))
+				}
+				return
+			}
 			if m.Method == "HEAD" {
 				fmt.Fprintf(bc.Conn, "HTTP/1.1 200 OK\r\nContent-Length: %d\r\nX-Backend: %s\r\nX-Echo-Target: %s\r\n\r\n", len(body), name, m.Target)
 				continue
